@@ -535,6 +535,10 @@ class PSBaseParser:
                 # it by tacking on whitespace, and delay raising PSEOF
                 # until next time around
                 self.charpos = self._parse1(b"\n", 0)
+                if not self._tokens and self._parse1 == self._parse_literal:
+                    # The white space only finished a "#xx" escape; the name
+                    # that ends with this escape still has to be terminated.
+                    self.charpos = self._parse1(b"\n", 0)
                 self.eof = True
                 # Oh, so there wasn't actually a token there? OK.
                 if not self._tokens:
